@@ -2223,3 +2223,33 @@ V('c17-maildir-copy-twin-ifelse', 'C17', 'R17.8', MAILDIRMBX,
   "        copy_msg.set_subdir('new' if recent else 'cur')\n        async with destination",
   "        if recent:\n            copy_msg.set_subdir('new')\n        else:\n            copy_msg.set_subdir('cur')\n        async with destination",
   expect='silent')
+V('c06-readline-eof-on-buffer', 'C06', 'R6.10', IMAPINIT,
+  '''            line = await self.reader.readline()
+            if not line.endswith(b'\\n'):
+                raise EOFError()
+            buf += line
+            lit_plus = self._literal_plus.search(line)''',
+  '''            line = await self.reader.readline()
+            buf += line
+            if not buf.endswith(b'\\n'):
+                raise EOFError()
+            lit_plus = self._literal_plus.search(line)''')
+V('c06-readline-marker-in-buffer', 'C06', 'R6.10', IMAPINIT,
+  'lit_plus = self._literal_plus.search(line)',
+  'lit_plus = self._literal_plus.search(buf)')
+V('c06-sieve-read-data-accumulate', 'C06', 'R6.10', SIEVE,
+  '''            line = await self.reader.readline()
+            if not line.endswith(b'\\n'):
+                raise EOFError()
+            data += line''',
+  '''            data += await self.reader.readline()
+            if not data.endswith(b'\\n'):
+                raise EOFError()
+            line = data''')
+V('c06-readline-twin-empty-test', 'C06', 'R6.10', SIEVE,
+  '''            if not line.endswith(b'\\n'):
+                raise EOFError()
+            data += line''',
+  '''            if not line.endswith(b'\\n'):
+                raise EOFError('connection closed')
+            data.extend(line)''', expect='silent')
